@@ -27,7 +27,7 @@ std::string bytesOf(const NifFile& m) {
 
 std::string applyEdit(NifFile& x, Tape& t, bool& geometryEdit) {
 	auto shapes = x.GetShapes();
-	uint8_t op = t.u8() % 12;
+	uint8_t op = t.u8() % 14;
 	NiShape* s = shapes.empty() ? nullptr : shapes[t.u8() % shapes.size()];
 	switch (op) {
 		case 0: {
@@ -103,6 +103,28 @@ std::string applyEdit(NifFile& x, Tape& t, bool& geometryEdit) {
 			x.SetTextureSlot(s, tex, 0);
 			return "Rename+SetTextureSlot";
 		}
+		case 12: { // through the shape object itself (its cached data pointer), not through the model
+			if (!s)
+				return "noop";
+			std::vector<Triangle> tr;
+			s->GetTriangles(tr);
+			if (tr.size() < 2)
+				return "noop";
+			tr.pop_back();
+			std::reverse(tr.begin(), tr.end());
+			s->SetTriangles(tr);
+			geometryEdit = true;
+			return "shape->SetTriangles";
+		}
+		case 13: {
+			if (!s)
+				return "noop";
+			if (s->GetNumVertices() > 0)
+				x.MoveVertex(s, Vector3(500.0f, -400.0f, 300.0f), 0);
+			s->UpdateBounds();
+			geometryEdit = true;
+			return "MoveVertex+shape->UpdateBounds";
+		}
 		default: {
 			auto& v = x.GetHeader().GetVersion();
 			if (!(v.IsSK() || v.IsSSE()) || x.HasUnknown())
@@ -123,7 +145,7 @@ std::string applyEdit(NifFile& x, Tape& t, bool& geometryEdit) {
 Verdict prop(Tape& t, Run& run) {
 	auto src = std::make_unique<NifFile>();
 	std::string desc, version;
-	uint8_t from = t.u8() % 4;
+	uint8_t from = t.u8() % 5;
 	std::string srcBytes; // the file the source was loaded from (file sources)
 	if (from == 0) {
 		static const size_t vers[] = {4, 5, 6, 7, 8, 11};
@@ -131,6 +153,39 @@ Verdict prop(Tape& t, Run& run) {
 		GraphInfo gi = buildGraph(*src, t, vi);
 		desc = "graph: " + gi.str();
 		version = versions()[vi].name;
+	}
+	else if (from == 4) {
+		// a newer-version file (SSE / FO4 / FO76) that still carries NiTriShape shapes with separate data
+		// blocks (unusual, loadable): built through the block API the way CreateShapeFromData builds LE shapes
+		static const size_t vers[] = {7, 8, 11};
+		size_t vi = vers[t.u8() % 3];
+		NifFile b;
+		b.Create(versions()[vi].ni());
+		auto& bh = b.GetHeader();
+		uint32_t ns = 1 + t.u8() % 2;
+		for (uint32_t i = 0; i < ns; i++) {
+			MeshOpts mo;
+			mo.maxVerts = 40;
+			mo.maxTris = 60;
+			mo.minTris = 2;
+			Mesh m = genMesh(t, mo);
+			auto shape = std::make_unique<NiTriShape>();
+			shape->name.get() = "Legacy" + std::to_string(i);
+			auto data = std::make_unique<NiTriShapeData>();
+			data->Create(bh.GetVersion(), &m.verts, &m.tris, m.uvs.empty() ? nullptr : &m.uvs, m.norms.empty() ? nullptr : &m.norms);
+			shape->SetGeomData(data.get());
+			shape->DataRef()->index = bh.AddBlock(std::move(data));
+			shape->SetSkinned(false);
+			uint32_t sid = bh.AddBlock(std::move(shape));
+			b.GetRootNode()->childRefs.AddBlockRef(sid);
+		}
+		if (saveBytes(b, srcBytes, rawOpts()) != 0 || loadBytes(*src, srcBytes) != 0) {
+			run.exclude("legacy-geometry file not usable");
+			return OK;
+		}
+		desc = "file: " + std::to_string(ns) + " NiTriShape+NiTriShapeData in a " + versions()[vi].name + " file";
+		version = versions()[vi].name;
+		run.cls("source:legacy-geometry-in-newer-version");
 	}
 	else {
 		FileCase c = decodeFileCase(t, run);
@@ -286,6 +341,16 @@ void deterministic(Run& run, const std::function<void(const std::vector<uint8_t>
 			for (uint8_t edit = 0; edit < 12; edit++)
 				for (uint8_t side = 0; side < 2; side++)
 					feed({1, 1, static_cast<uint8_t>(i), how, side, 0 /*one edit*/, edit, 0, 0, 0, 0});
+	// legacy geometry in newer versions x copy kind x shape-level edits x side
+	for (uint8_t v = 0; v < 3; v++)
+		for (uint8_t how = 0; how < 3; how++)
+			for (uint8_t edit : {12, 13, 4, 1, 8})
+				for (uint8_t side = 0; side < 2; side++) {
+					std::vector<uint8_t> tape = {4, v, 1};
+					tape.resize(3 + 120, static_cast<uint8_t>(0x47 + v * 3 + how));
+					tape.insert(tape.end(), {how, side, 0, edit, 0, 0, 0, 0});
+					feed(tape);
+				}
 	// every sample with one (each of the first eight) or all type names unknown x copy kind
 	for (size_t i = 0; i < n; i++)
 		for (uint8_t how = 0; how < 3; how++)
